@@ -6,12 +6,16 @@ Open Scope N_scope.
 
 (* digits mcc mnc msin; observed: SUCI buffer, REGISTRATION REQUEST, DEREGISTRATION REQUEST, and every PLMN
    octet string seen (Buffer[1:4], NGSetupRequest GlobalGNBID + SupportedTAList, ULI NR-CGI + TAI) *)
+(* the identity as a conformant SENDER writes it (TS 24.501 9.11.3.4, figure 9.11.3.4.3): what suci_is asks for, and the two
+   spare bits of the first octet (bits 8 and 4) coded as zero — a receiver may ignore them, the encoder may not set them *)
+Definition suci_strict (b:list N) (mcc mnc msin:list N) : bool :=
+  suci_is b mcc mnc msin && match b with o4 :: _ => (o4 / 128 =? 0) && ((o4 / 8) mod 2 =? 0) | [] => false end.
 Definition c11_spec_case := (list N * list N * list N * list N * list N * list N * list (list N))%type.
 Definition c11_spec_check (c:c11_spec_case) : bool :=
   let '(mcc, mnc, msin, buf, reg, dereg, plmns) := c in
-  suci_is buf mcc mnc msin
-  && match mobile_identity_of REGISTRATION_REQUEST reg with Some mi => suci_is mi mcc mnc msin | None => false end
-  && match mobile_identity_of DEREGISTRATION_REQUEST_UE_ORIG dereg with Some mi => suci_is mi mcc mnc msin | None => false end
+  suci_strict buf mcc mnc msin
+  && match mobile_identity_of REGISTRATION_REQUEST reg with Some mi => suci_strict mi mcc mnc msin | None => false end
+  && match mobile_identity_of DEREGISTRATION_REQUEST_UE_ORIG dereg with Some mi => suci_strict mi mcc mnc msin | None => false end
   && forallb (fun o => plmn_is o mcc mnc) plmns.
 Definition plmnnas_spec_check (c:list N * list N * list N) : bool :=
   let '(mcc, mnc, o) := c in plmn_is o mcc mnc.
